@@ -15,4 +15,15 @@ TEXT = {
                 "channel on the explored inputs only); Go harness and compiled Lean driver.",
         "technique": "Lean 4 proof (cursor invariant, induction on fuel) + model/implementation correspondence",
     },
+    "C20": {
+        "level": "Lean 4 theorems for every text and every 0<=pos<=end<=len about a line-for-line model of token/file.go: ResolvePos equals the "
+                 "specification (newlines before pos / distance from line start), File.Position never panics in range (and the bound is sharp), "
+                 "Error.Error() starts with file:line+1:col+1 of Pos. Model tied to the Go code by the POS channel (Position fields, excerpt text, "
+                 "error text, and panics for out-of-range arguments) over all short texts x all ranges; the implementation predicate re-checks "
+                 "line/column/excerpt against newline counting and the prefix of every error the lexer and parser report.",
+        "design_ref": "DESIGN.md §4 C20",
+        "note": "Trusted: Lean kernel + standard axioms; model of file.go/error.go (validated by POS channel on explored inputs); the excerpt "
+                "rendering is correspondence-checked only.",
+        "technique": "Lean 4 proof (induction over the text relating the line table to a scan) + correspondence",
+    },
 }
